@@ -614,3 +614,74 @@ Print Assumptions C03_arena_history_refines_partial.
 Print Assumptions C03_arena_history_value_partial.
 Print Assumptions C03_arena_history_nonvacuous.
 (* x-arenahist end ------------------------------------------------------------------------------------------------ *)
+
+(* x-arenahist (general histories) begin ----------------------------------------------------------------------------
+   EVERY history of apply_func / infeasible_elimination / compose::<true> steps, any number of pruned compositions
+   (Pwl/ArenaHistoryGen.v), modulo one EXECUTABLE check after each composition: ArenaHistoryGen.strayb a' = every
+   terminal cell of the returned slab belongs to the tree at root 0 (not part of the published postcondition of
+   acompose_prune; the next composition iterates over all terminal cells).  arena_run_chk = arena_run + these checks:
+   RFail (a machine returned None) is impossible while the structural run completes; unless a check fires (RStray)
+   the arena returned by arena_run satisfies AInv with a tree equal to the structural result up to node indices.
+   The structural models read a node index only through "= 0" (cprune: the root terminal): they respect cshz
+   (equal up to indices, same nodes carry index 0), and index 0 stays at the root. *)
+From AT Require ShapeZ ElimShapeZ CPruneShapeZ ArenaHistoryGen ArenaHistoryGenEx.
+Theorem C03_elim_respects_shapez : forall o tol t u, ShapeZ.cshz t u ->
+  ShapeZ.cshz (fst (elim o tol t)) (fst (elim o tol u)) /\ snd (elim o tol t) = snd (elim o tol u).
+Proof. exact ElimShapeZ.elim_cshz. Qed.
+Theorem C03_compose_prune_respects_shapez : forall o tol L t u, ShapeZ.cshz t u ->
+  ShapeZ.cshz (fst (compose_prune o tol t L)) (fst (compose_prune o tol u L)) /\
+  snd (compose_prune o tol t L) = snd (compose_prune o tol u L).
+Proof. exact CPruneShapeZ.compose_prune_cshz. Qed.
+Theorem C03_compose_prune_keeps_root0 : forall o tol L t, ShapeZ.onlyroot0 t -> ShapeZ.onlyroot0 (fst (compose_prune o tol t L)).
+Proof. exact CPruneShapeZ.compose_prune_onlyroot0. Qed.
+Theorem C03_shapez_is_shape : forall x y, ShapeZ.cshz x y -> ACPruneRefine.cshape x y.
+Proof. exact ShapeZ.cshz_cshape. Qed.
+(* the check turns the weak invariant into the full one *)
+Theorem C03_arena_stray_check : forall a t, ArenaHistoryMore.AInvW a t -> ArenaHistoryGen.strayb a = true -> ArenaHistory.AInv a t.
+Proof. exact ArenaHistoryGen.AInvW_strayb. Qed.
+(* one step of any admissible kind, from related trees *)
+Theorem C03_arena_history_step_gen : forall alloc tol o x a t' t t1,
+  ArenaCompose.fresh_alloc alloc -> AElimBase.mir_ne o -> ACPruneAll.lp_index_free o -> ArenaHistoryGen.gop_ok x ->
+  ArenaHistory.AInv a t' -> ShapeZ.cshz t' t -> step tol o (ArenaHistory.op_of x) t = HOk t1 ->
+  exists a' t1', ArenaHistory.arena_step alloc tol o x a = Some a' /\ ArenaHistoryMore.AInvW a' t1' /\ ShapeZ.cshz t1' t1 /\
+                 (ArenaHistory.exact_op x = true -> ArenaHistory.AInv a' t1').
+Proof. exact ArenaHistoryGen.arena_step_refines_gen. Qed.
+(* histories *)
+Theorem C03_arena_history_refines : forall alloc tol ops a0 t0 tf,
+  ArenaCompose.fresh_alloc alloc -> ArenaHistoryGen.hist_okG ops -> ArenaHistory.AInv a0 t0 ->
+  run tol t0 (ArenaHistory.ops_of ops) = HOk tf ->
+  match ArenaHistoryGen.arena_run_chk alloc tol ops a0 with
+  | ArenaHistoryGen.ROk a' =>
+      ArenaHistory.arena_run alloc tol ops a0 = Some a' /\
+      exists tf', ArenaHistory.AInv a' tf' /\ cabs (AElimBase.cdepth tf') a' 0%nat = Some tf' /\
+                  ACPruneRefine.cshape tf' tf /\ forall x, cev tf' x = cev tf x
+  | ArenaHistoryGen.RStray => True
+  | ArenaHistoryGen.RFail => False
+  end.
+Proof. exact ArenaHistoryGen.arena_history_refines_checked. Qed.
+Theorem C03_arena_history_checked_is_run : forall alloc tol ops a a',
+  ArenaHistoryGen.arena_run_chk alloc tol ops a = ArenaHistoryGen.ROk a' -> ArenaHistory.arena_run alloc tol ops a = Some a'.
+Proof. exact ArenaHistoryGen.arena_run_chk_run. Qed.
+(* non-vacuity: two pruned compositions; both checks pass, the runs agree up to node indices, the final arena meets
+   the invariant (executable check) *)
+Example C03_arena_history_gen_nonvacuous :
+  ArenaHistory.AInv AElimExample.exa_arena ex_t /\ ArenaHistoryGen.hist_okG ArenaHistoryGenEx.ahg_ops /\
+  ArenaCompose.fresh_alloc ArenaCompose.next_key /\
+  match run 0 ex_t (ArenaHistory.ops_of ArenaHistoryGenEx.ahg_ops),
+        ArenaHistoryGen.arena_run_chk ArenaCompose.next_key 0 ArenaHistoryGenEx.ahg_ops AElimExample.exa_arena with
+  | HOk tf, ArenaHistoryGen.ROk a' =>
+      option_map (fun t' => ctree_eqb_shape t' tf) (cabs 12 a' 0%nat) = Some true /\
+      ArenaHistory.ainvb a' = true /\ (4 < AElimBase.csize tf)%nat
+  | _, _ => False
+  end.
+Proof. exact ArenaHistoryGenEx.ahg_run. Qed.
+Print Assumptions C03_elim_respects_shapez.
+Print Assumptions C03_compose_prune_respects_shapez.
+Print Assumptions C03_compose_prune_keeps_root0.
+Print Assumptions C03_shapez_is_shape.
+Print Assumptions C03_arena_stray_check.
+Print Assumptions C03_arena_history_step_gen.
+Print Assumptions C03_arena_history_refines.
+Print Assumptions C03_arena_history_checked_is_run.
+Print Assumptions C03_arena_history_gen_nonvacuous.
+(* x-arenahist (general histories) end ------------------------------------------------------------------------------ *)
